@@ -385,6 +385,8 @@ def fixed_cases(tier):
     out.append(mk([{'$replace': 't.y'}], 'list-replace', None, ('t', 'y')))
     out.append(mk({'$merge': 't.nope'}, 'map-merge', {}, ('t', 'nope'), 'dangling'))
     out.append(mk('$merge:t.nope', 'str-merge', None, ('t', 'nope'), 'dangling'))
+    for l in ([0, {'$merge': 'nope'}, 5, {'$merge': 'a'}], [{'$merge': 'a'}, {'$merge': 'nope'}], [{'$merge': 'nope'}, {'$merge': 'a'}, {'$merge': 'a'}], [{'$replace': 'nope'}, {'$merge': 'a'}]):
+        out.append({'docs': [{'a': [1, 2], 'l': l}], 'expanded': [], 'multi': 'dangling-among-several', 'must_fail': True, 'labels': ['fixed', 'multi:dangling-among-several']})
     return out
 
 
@@ -422,6 +424,17 @@ def evaluate(ctx, res, docs, parser=0):
 
 def check_multi(ctx, res, case):
     docs, expanded = case['docs'], case['expanded']
+    if case.get('must_fail'):
+        # several list-form references in one list, one of them dangling: the evaluation must fail wherever the bad one stands
+        resp = ctx.call(evaluate(ctx, res, docs, 0), res)
+        if resp is None:
+            return res.violate('crash', 'worker died', docs=docs)
+        res.nontrivial = True
+        if all(r['err'] is None and not r.get('panic') for r in resp['results']):
+            return res.violate('error', 'a dangling reference among several list-form references did not fail', docs=docs, out=out_bytes(resp['results'][-1]).decode('utf-8', 'replace'))
+        res.ev('required_failures')
+        res.ev('multi_reference_documents')
+        return res
     ops = evaluate(ctx, res, docs, 0) + evaluate(ctx, res, expanded, 1)
     resp = ctx.call(ops, res)
     if resp is None:
